@@ -62,42 +62,65 @@ def run_property(pid: str, repo: str, tier: str, seed: int = 0, write=True, evid
 
 
 def _second_opinion(pid, repo, tier, seed, rep):
-    """Obligations that could not be decided are re-examined on a semantics-preserving normal form of the program
-    (private helpers inlined, see qsa.normalize).  Per rule: if the rule is fully decided there, its obligations replace
-    the undecided ones."""
+    """Rules that are contested on the source as written - an obligation could not be decided, an instance count
+    collapsed, or a violation is reported - are re-examined on a semantics-preserving normal form of the program
+    (private helpers inlined statement by statement, see qsa.normalize).  The property is a statement about behaviour, so
+    it has the same truth value on both forms.  Per rule: if the rule is fully decided on the normal form and every
+    obligation holds there (or is a listed known finding), those obligations replace the contested ones; a violation that
+    is reported on both forms stands."""
     import shutil
     import tempfile
-    from .report import UNDECIDED, VIOLATION, HOLDS
-    und_rules = sorted({o.rule for o in rep.obs if o.status == UNDECIDED})
-    if not und_rules:
+    from .report import UNDECIDED, VIOLATION, HOLDS, INFO
+    rep.match_known()
+    counts = {}
+    for o in rep.obs:
+        if o.status != INFO:
+            counts[o.rule] = counts.get(o.rule, 0) + 1
+    contested = {o.rule for o in rep.obs if o.status == UNDECIDED or (o.status == VIOLATION and o.known is None)}
+    contested |= {r for r, fl in rep.floors.items() if counts.get(r, 0) < max(1 if fl > 0 else 0, (fl + 1) // 2)}
+    contested = sorted(contested)
+    if not contested:
         return
     from .normalize import anchors_from_rules, normalise_repo
-    d = tempfile.mkdtemp(prefix="qsa_norm_")
-    try:
-        stats = normalise_repo(repo, d, anchors_from_rules(VERIF))
-        if not stats["calls_inlined"]:
-            return
-        code2, rep2 = run_property(pid, d, "quick", seed, write=False, quiet=True, selftest=False, _normalise=False)
-        adopted = []
-        for r in und_rules:
-            obs2 = [o for o in rep2.obs if o.rule == r and o.status in (HOLDS, VIOLATION, UNDECIDED)]
-            if not obs2 or any(o.status == UNDECIDED for o in obs2):
+    anchors = anchors_from_rules(VERIF)
+    all_adopted = []
+    for form, opts in (("private helpers inlined", {}),
+                       ("private helpers inlined, append loops written as comprehensions", {"comprehensions": True})):
+        if not contested:
+            break
+        d = tempfile.mkdtemp(prefix="qsa_norm_")
+        try:
+            stats = normalise_repo(repo, d, anchors, **opts)
+            if not (stats["calls_inlined"] or stats.get("loops_rewritten")):
                 continue
-            if len(obs2) < max(1, (rep.floors.get(r, 1) + 1) // 2):
-                continue
-            # replace this rule's obligations by the ones decided on the normal form
-            rep.obs = [o for o in rep.obs if o.rule != r]
-            rep._bykey = {k: v for k, v in rep._bykey.items() if v.rule != r}
-            for o in obs2:
-                o.detail = (o.detail or "") + " [decided on the normal form of the program: private helpers inlined]"
-                rep.add(o)
-            adopted.append(r)
-        if adopted:
-            rep.note("rule(s) %s were undecided on the source as written and are decided on its normal form (%d helper calls inlined in %d files)"
-                     % (", ".join(adopted), stats["calls_inlined"], stats["files_changed"]))
-            rep.stats["normal_form"] = dict(stats, rules_adopted=adopted)
-    finally:
-        shutil.rmtree(d, ignore_errors=True)
+            code2, rep2 = run_property(pid, d, "quick", seed, write=False, quiet=True, selftest=False, _normalise=False)
+            adopted = []
+            for r in contested:
+                obs2 = [o for o in rep2.obs if o.rule == r and o.status in (HOLDS, VIOLATION, UNDECIDED)]
+                if not obs2 or any(o.status == UNDECIDED for o in obs2):
+                    continue
+                if len(obs2) < max(1, (rep.floors.get(r, 1) + 1) // 2):
+                    continue
+                had_violation = any(o.rule == r and o.status == VIOLATION and o.known is None for o in rep.obs)
+                if had_violation and any(o.status == VIOLATION and o.known is None for o in obs2):
+                    continue        # reported on both forms
+                # replace this rule's obligations by the ones decided on the normal form
+                rep.obs = [o for o in rep.obs if o.rule != r]
+                rep._bykey = {k: v for k, v in rep._bykey.items() if v.rule != r}
+                for o in obs2:
+                    o.detail = (o.detail or "") + " [decided on the normal form of the program: %s]" % form
+                    rep.add(o)
+                adopted.append(r)
+            if adopted:
+                rep.note("rule(s) %s were contested on the source as written and are decided on its normal form (%s: %d helper calls inlined, "
+                         "%d loops rewritten in %d files)" % (", ".join(adopted), form, stats["calls_inlined"], stats.get("loops_rewritten", 0),
+                                                             stats["files_changed"]))
+                all_adopted += adopted
+                rep.stats["normal_form"] = dict(stats, rules_adopted=list(all_adopted))
+                # a rule adopted with violations stays as it is; the others leave the contested set
+                contested = [r for r in contested if r not in adopted]
+        finally:
+            shutil.rmtree(d, ignore_errors=True)
 
 
 def replay(path: str, repo: str) -> int:
